@@ -3,6 +3,7 @@ package main
 import (
 	"fmt"
 	"go/ast"
+	"go/token"
 	"go/types"
 	"strings"
 
@@ -30,7 +31,7 @@ func checkC18(r *Run) {
 	r.Stats["packages"] = len(p.Repo)
 	r.Rule("C18.R1.gate", "Enforce returns nil only across allowRequest(req, policies) == true on policies retrieved for req.Subject; allowRequest is called only there", 3)
 	r.Rule("C18.R3.resource", "the role and policy writers delete the ontology resource they defined (with its edges) when they delete the table row: access checks resolve a subject's policies through those edges, so a role or policy that only loses its row keeps (or, when its key is reused, regains) its grants", 2)
-	r.Rule("C18.R2.cover", "allowRequest returns true only after every requested object set a per-iteration flag across edges establishing action membership, type equality and (type-wide or key equality)", 5)
+	r.Rule("C18.R2.cover", "allowRequest returns true only after every requested object set a per-iteration flag across edges establishing action membership, type equality and (type-wide or key equality)", 4)
 
 	enforce := p.Func(rbacPkg, "Enforcer", "Enforce")
 	allow := p.Func(rbacPkg, "", "allowRequest")
@@ -242,9 +243,9 @@ func checkAllowCover(r *Run, p *Prog, fn *FuncNode) {
 		}
 		return false
 	}
-	eqOn := func(atom ast.Expr, field string) bool {
+	eqOnIn := func(fn *FuncNode, obj types.Object, atom ast.Expr, field string, val bool) bool {
 		be, ok := ast.Unparen(atom).(*ast.BinaryExpr)
-		if !ok || be.Op.String() != "==" {
+		if !ok || !(be.Op == token.EQL && val || be.Op == token.NEQ && !val) {
 			return false
 		}
 		fx, okx := isFieldOfObj(fn, be.X, obj)
@@ -260,17 +261,46 @@ func checkAllowCover(r *Run, p *Prog, fn *FuncNode) {
 		s, ok := ast.Unparen(other).(*ast.SelectorExpr)
 		return ok && s.Sel.Name == field && objOf(fn, s.X) != obj
 	}
-	isTypeWide := func(atom ast.Expr) bool {
+	isTypeWideIn := func(fn *FuncNode, atom ast.Expr, val bool) bool {
 		call, ok := ast.Unparen(atom).(*ast.CallExpr)
-		if !ok {
+		if !ok || !val {
 			return false
 		}
 		f := CalleeFunc(fn, call)
 		return f != nil && f.Name() == "IsType"
 	}
+	typePred := func(fn *FuncNode, obj types.Object, a ast.Expr, v bool) bool { return eqOnIn(fn, obj, a, "Type", v) }
+	scopePred := func(fn *FuncNode, obj types.Object, a ast.Expr, v bool) bool {
+		return isTypeWideIn(fn, a, v) || eqOnIn(fn, obj, a, "Key", v)
+	}
+	// a test extracted into a package-local predicate over the requested object counts when
+	// every true result of the predicate lies behind the test
+	viaHelper := func(pred objAtomPred) func(a ast.Expr, v bool) bool {
+		return func(a ast.Expr, v bool) bool {
+			if pred(fn, obj, a, v) {
+				return true
+			}
+			call, ok := ast.Unparen(a).(*ast.CallExpr)
+			if !ok || !v {
+				return false
+			}
+			g := p.ByObj[CalleeFunc(fn, call)]
+			if g == nil || g.Body == nil {
+				return false
+			}
+			for i, arg := range call.Args {
+				if objOf(fn, arg) == obj {
+					if po := paramObj(g, i); po != nil {
+						return predicateEstablishes(p, g, po, pred)
+					}
+				}
+			}
+			return false
+		}
+	}
 	action := c.EdgesEstablishing(func(a ast.Expr, v bool) bool { return v && isActionAtom(a) })
-	typeEq := c.EdgesEstablishing(func(a ast.Expr, v bool) bool { return v && eqOn(a, "Type") })
-	scope := c.EdgesEstablishing(func(a ast.Expr, v bool) bool { return v && (isTypeWide(a) || eqOn(a, "Key")) })
+	typeEq := c.EdgesEstablishing(viaHelper(typePred))
+	scope := c.EdgesEstablishing(viaHelper(scopePred))
 	sets := c.NodesWhere(func(n ast.Node) bool {
 		as, ok := n.(*ast.AssignStmt)
 		if !ok || len(as.Lhs) != 1 || len(as.Rhs) != 1 || objOf(fn, as.Lhs[0]) != flag {
@@ -305,6 +335,52 @@ func checkAllowCover(r *Run, p *Prog, fn *FuncNode) {
 		}
 		r.Ob("C18.R2.cover", fmt.Sprintf("flag assignment #%d is behind action, type and scope tests", i+1), posOf(p, as), len(missing) == 0, "reachable without: "+strings.Join(missing, "; "))
 	}
+}
+
+type objAtomPred func(fn *FuncNode, obj types.Object, atom ast.Expr, val bool) bool
+
+// exprImplies: e being true implies an atom accepted by pred (conjunction: either side;
+// disjunction: both sides).
+func exprImplies(e ast.Expr, pred func(atom ast.Expr, val bool) bool) bool {
+	e = ast.Unparen(e)
+	if be, ok := e.(*ast.BinaryExpr); ok {
+		switch be.Op {
+		case token.LAND:
+			return exprImplies(be.X, pred) || exprImplies(be.Y, pred)
+		case token.LOR:
+			return exprImplies(be.X, pred) && exprImplies(be.Y, pred)
+		}
+	}
+	return pred(e, true)
+}
+
+// predicateEstablishes reports whether every true result of the one-result boolean
+// function g lies behind a test accepted by pred, with obj standing for g's parameter.
+func predicateEstablishes(p *Prog, g *FuncNode, obj types.Object, pred objAtomPred) bool {
+	sig, _ := g.Obj.Type().(*types.Signature)
+	if sig == nil || sig.Results().Len() != 1 {
+		return false
+	}
+	c := p.CFG(g)
+	at := func(a ast.Expr, v bool) bool { return pred(g, obj, a, v) }
+	edges := c.EdgesEstablishing(at)
+	_, vis := c.ReachAvoiding([]Point{c.Entry()}, edges, nil)
+	for _, ex := range c.Exits() {
+		if ex.Return == nil || len(ex.Return.Results) != 1 {
+			return false
+		}
+		res := ex.Return.Results[0]
+		if id, ok := ast.Unparen(res).(*ast.Ident); ok && id.Name == "false" {
+			continue
+		}
+		if !vis[ex.P] {
+			continue
+		}
+		if !exprImplies(res, at) {
+			return false
+		}
+	}
+	return true
 }
 
 // reachAvoidingBlocks explores from starts without entering the given blocks.
